@@ -98,7 +98,21 @@ func run(id string, args []string) int {
 	}
 	known, what := loadKnown(*knownPath, id)
 	start := time.Now()
-	out := r.Run(scen.RunOpts{Tier: *tier, Known: known, Workers: *workers})
+	var out scen.Output
+	crashed := func() (msg string) {
+		defer func() {
+			if x := recover(); x != nil {
+				msg = fmt.Sprintf("checker panicked: %v\n%s", x, debug.Stack())
+			}
+		}()
+		out = r.Run(scen.RunOpts{Tier: *tier, Known: known, Workers: *workers})
+		return ""
+	}()
+	if crashed != "" {
+		// a crash of the checker itself is never reported as a violation
+		fmt.Fprintln(os.Stderr, "INTERNAL ERROR:", crashed)
+		return 3
+	}
 	wall := time.Since(start)
 
 	exit := 0
